@@ -36,7 +36,8 @@ LEVEL_TEXT = (
     'Decides these structural clauses for every dict protocol class.')
 LEVEL_NOTE = 'Trusted: msgpack integer range; cdict lookup semantics.'
 TECHNIQUE = ('finite-domain evaluation + table symmetry + constant folding + '
-             'truthiness-vs-identity reading (ast)')
+             'truthiness-vs-identity reading + propositional entailment over '
+             'dominating guards (ast)')
 
 HIER = 'spyne.protocol.dictdoc.hier:HierDictDocument'
 PASS_OK = {'Integer', 'Double', 'Boolean'}
